@@ -187,8 +187,6 @@ Definition lindict_pad : N := 200.
 Definition lindict_padding (obj_len : N) : option N := if lindict_pad <? obj_len then None else Some (lindict_pad - obj_len).
 
 (* pass-2 text of the parameter dictionary object (numbers as decimal) *)
-Definition lh_sp := 32.
-Definition lh_lit (s : list N) := s.
 Definition lindict_text (id L H0 H1 O E Np T : N) : list N :=
   dec_of_N id ++ [32; 48; 32; 111; 98; 106; 10; 60; 60] ++
   [32; 47; 76; 105; 110; 101; 97; 114; 105; 122; 101; 100; 32; 49; 32; 47; 76; 32] ++ dec_of_N L ++
